@@ -241,6 +241,13 @@ def run_config(cfg, e):
             e.prove_all(obl)
         else:
             e.prove(m.traces is None, 'traces without raw data')
+        # a whitening_mat_inv.npy created by loading is what the next load of this directory reads
+        went = fs.get(ds.dir + '/whitening_mat_inv.npy')
+        if went is not None and (ds.dir + '/whitening_mat_inv.npy') not in before:
+            obl = []
+            _arr_eq(obl, snp.asarray(went.arr), np.linalg.inv(wm).ravel().tolist(), (nc, nc),
+                    'whitening_mat_inv.npy written at load time is not the inverse of the whitening matrix')
+            e.prove_all(obl)
         # directory invariants
         allowed_new = {ds.dir + '/spike_clusters.npy', ds.dir + '/whitening_mat_inv.npy'}
         for op in fs.log[nlog:]:
@@ -354,6 +361,16 @@ def replay(case):
         extra = set(after) - set(before) - {'spike_clusters.npy', 'whitening_mat_inv.npy'}
         if extra:
             return 'loading created %s' % sorted(extra)
+        if 'whitening_mat_inv.npy' in after and 'whitening_mat_inv.npy' not in before:
+            # loading the same directory again
+            m2 = mod.load_model(os.path.join(rd.dir, 'params.py'))
+            try:
+                wm2 = rd.wm if (rd.wm is not None and case['presence'].get('whitening_mat', True)) else np.eye(cfg['nc'])
+                if not np.allclose(m2.wmi, np.linalg.inv(wm2)):
+                    return 'second load of the directory: inverse whitening matrix %s, expected %s' % (
+                        np.asarray(m2.wmi).tolist(), np.linalg.inv(wm2).tolist())
+            finally:
+                m2.close()
         return None
     finally:
         rd.close()
